@@ -293,9 +293,8 @@ func (node *Node) ProcessBlock(ctx context.Context, block wire.Block) error {
 		inUnconfirmed, unconfirmed = removeHash(*txid, unconfirmed)
 
 		// Remove from mempool
-		inMemPool := false
 		if node.state.IsReady() {
-			inMemPool = node.memPool.RemoveTransaction(*txid)
+			node.memPool.RemoveTransaction(*txid)
 		}
 
 		// Check for transactions in the mempool with conflicting inputs (double spends). This tx is
@@ -346,8 +345,11 @@ func (node *Node) ProcessBlock(ctx context.Context, block wire.Block) error {
 			txsIsNew = append(txsIsNew, false)
 			txsIsSafe = append(txsIsSafe, true)
 
-		} else if !inMemPool {
-			// Not seen yet
+		} else {
+			// Not delivered yet. That includes a tx the unconfirmed tx processor has put in the
+			// mempool but not yet in the tx repo (it waits for the lock this block holds): being in
+			// the mempool does not say the tx was found irrelevant, so it is judged here. The tx
+			// processor then finds it in the tx repo and stops.
 
 			if node.IsRelevant(ctx, tx) {
 				// Add to txs for block
